@@ -22,6 +22,7 @@
         requires val(parameters.c) > 0real,
         ensures
             r.feasible(), //# new-optimizer-is-feasible
+            r.samples_ok(),
             r.sv@.len() == 0, r.x == x, r.y == y, r.parameters == parameters, r.kernel == kernel,
 //@end
 
@@ -31,8 +32,9 @@
         ensures
             final(self).feasible(), //# reprocess-preserves-feasibility
             final(self).same_problem(old(self)),
+            old(self).samples_ok() ==> final(self).samples_ok(), //# reprocess-keeps-support-vectors-distinct-training-rows
 //@enter
-        proof { lemma_drops_only_zero_all::<T, M::RowVector>(self.y.vview(), self.parameters.c); }
+        proof { lemma_drops_only_zero_all::<T, M::RowVector>(self.y.vview(), self.parameters.c); lemma_drops_samples_all::<T, M>(self.x); }
 //@end
 
 //@extract src/svm/svc.rs :: impl<'a, T: RealNumber, M: Matrix<T>, K: Kernel<T, M:.:RowVector>> Optimizer<'a, T, M, K> :: finish
@@ -41,10 +43,11 @@
         ensures
             final(self).feasible(), //# finish-preserves-feasibility
             final(self).same_problem(old(self)),
+            old(self).samples_ok() ==> final(self).samples_ok(), //# finish-keeps-support-vectors-distinct-training-rows
 //@enter
-        proof { lemma_drops_only_zero_all::<T, M::RowVector>(self.y.vview(), self.parameters.c); }
+        proof { lemma_drops_only_zero_all::<T, M::RowVector>(self.y.vview(), self.parameters.c); lemma_drops_samples_all::<T, M>(self.x); }
 //@loop 1
-            invariant self.feasible(), self.same_problem(old(self)),
+            invariant self.feasible(), self.same_problem(old(self)), old(self).samples_ok() ==> self.samples_ok(),
             decreases max_iter
 //@end
 
@@ -57,11 +60,12 @@
         ensures
             final(self).feasible(), //# initialize-preserves-feasibility
             final(self).same_problem(old(self)),
+            old(self).samples_ok() ==> final(self).samples_ok(), //# initialize-keeps-support-vectors-distinct-training-rows
 //@enter
         proof { T::ops_total(); }
 //@loop 1
             invariant
-                self.feasible(), self.same_problem(old(self)),
+                self.feasible(), self.same_problem(old(self)), old(self).samples_ok() ==> self.samples_ok(),
                 self.x.nrows_spec() == self.y.vview().len(), n == self.x.nrows_spec(),
                 few == 5, cp <= few, cn <= few,
                 T::obeys_eq_spec(), T::obeys_neg_spec(), forall|a: T| #[trigger] a.neg_req(),
